@@ -949,6 +949,30 @@ func (c *vfC01Conf) describe() (m map[string]any) {
 	return m
 }
 
+// aliasTarget returns a name under the domain of a plain blocking rule
+// (||d^) that is in force, or "".
+func (c *vfC01Conf) aliasTarget() (name string) {
+	pick := func(rs []vfRule) (d string) {
+		for _, r := range rs {
+			if r.Kind == vfKDomain && r.Modifier == "" {
+				return r.Domain
+			}
+		}
+
+		return ""
+	}
+	if d := pick(c.Custom); d != "" {
+		return "cdn-alias." + d
+	}
+	for i, l := range c.Block {
+		if d := pick(l); c.BlockOn[i] && d != "" {
+			return "cdn-alias." + d
+		}
+	}
+
+	return ""
+}
+
 func (c *vfC01Conf) kindSet() (s string) {
 	set := map[string]bool{}
 	add := func(rs []vfRule, side string) {
@@ -1002,6 +1026,31 @@ func vfC01CaseSettle(t *rapid.T, c *vfC01Conf, w *vfWorld, run func(q vfQuery) *
 			t.Fatalf("VERIF-INCONCLUSIVE oracles disagree (harness defect): constructive %+v, reference %+v for %s %s in %v",
 				cons, want, q.Name, dns.Type(q.Qtype), c.describe())
 		}
+
+		// The upstream's answer for an allowed name may lead, by an alias, to
+		// a name that a blocking rule matches: the allow rule is about the
+		// name that was asked, and its answer reaches the client intact.
+		var aliasAnswer func(req *dns.Msg) (resp *dns.Msg)
+		if blockedName := c.aliasTarget(); blockedName != "" && (want.Why == "allowlist" || want.Why == "exception") &&
+			(q.Qtype == dns.TypeA || q.Qtype == dns.TypeAAAA) && rapid.IntRange(0, 1).Draw(t, fmt.Sprintf("q%d_blocked_alias", i)) == 0 {
+			aliasAnswer = func(req *dns.Msg) (resp *dns.Msg) {
+				resp = (&dns.Msg{}).SetReply(req)
+				resp.RecursionAvailable = true
+				qn := req.Question[0].Name
+				resp.Answer = []dns.RR{&dns.CNAME{Hdr: dns.RR_Header{Name: qn, Rrtype: dns.TypeCNAME, Class: dns.ClassINET, Ttl: vfFixtureTTL}, Target: blockedName + "."}}
+				if req.Question[0].Qtype == dns.TypeA {
+					resp.Answer = append(resp.Answer, &dns.A{Hdr: dns.RR_Header{Name: blockedName + ".", Rrtype: dns.TypeA, Class: dns.ClassINET, Ttl: vfFixtureTTL}, A: net.IPv4(198, 51, 100, 200).To4()})
+				} else {
+					resp.Answer = append(resp.Answer, &dns.AAAA{Hdr: dns.RR_Header{Name: blockedName + ".", Rrtype: dns.TypeAAAA, Class: dns.ClassINET, Ttl: vfFixtureTTL}, AAAA: net.ParseIP("2001:db8:f1::c8")})
+				}
+
+				return resp
+			}
+			vfC01.Class(tag + "allowed_name_answered_with_blocked_alias")
+		}
+		w.ups.mu.Lock()
+		w.ups.answer = aliasAnswer
+		w.ups.mu.Unlock()
 
 		o := run(q.vfQuery)
 		vfC01.Eval()
